@@ -264,6 +264,9 @@ func streamRoundTrip(c streamCase, prop ref.PropSizes) evid.Outcome {
 	if c.Uplink {
 		mt = ref.MTUnconfUp
 	}
+	if len(c.Cmds)%2 == 1 {
+		mt += 2 // the confirmed message type of the same direction
+	}
 	want, err := ref.EncodeCmds(c.Uplink, c.Cmds)
 	if err != nil {
 		return evid.Outcome{Skip: true}
